@@ -167,7 +167,7 @@ func parseH265VpsSpsPps(s string, video *codec.VideoMeta) {
 	for continueScan {
 		advance, token, continueScan = scan.Semicolon.Scan(advance)
 		name, value, ok := scan.EqualPair.Scan(token)
-		if ok {
+		if ok && (name == "sprop-vps" || name == "sprop-sps" || name == "sprop-pps") {
 			var ps []byte
 			var err error
 			if ps, err = base64.StdEncoding.DecodeString(value); err != nil {
